@@ -261,8 +261,8 @@ func (f *fn) oracle(x *ast.CallExpr, c *types.Func, args []ast.Expr) (string, bo
 		return "", false
 	}
 	sg := c.Type().(*types.Signature)
-	if sg.Results().Len() != 1 {
-		f.fail(x, "oracle %s must have one result", oracleKey(c))
+	if sg.Results().Len() == 0 {
+		f.fail(x, "oracle %s must have a result", oracleKey(c))
 	}
 	name := tname2(c)
 	if sg.Recv() != nil {
@@ -276,11 +276,15 @@ func (f *fn) oracle(x *ast.CallExpr, c *types.Func, args []ast.Expr) (string, bo
 		v, t := f.values(a)
 		vs, ts = append(vs, v...), append(ts, t...)
 	}
-	rt := f.tyOf(sg.Results().At(0).Type())
-	if !leaf(rt) && rt.k != kStruct {
-		f.fail(x, "result of oracle %s has a type outside the fragment", oracleKey(c))
+	var rts []string
+	for i := 0; i < sg.Results().Len(); i++ {
+		rt := f.tyOf(sg.Results().At(i).Type())
+		if !leaf(rt) && rt.k != kStruct {
+			f.fail(x, "result of oracle %s has a type outside the fragment", oracleKey(c))
+		}
+		rts = append(rts, f.lean(rt))
 	}
-	lt := strings.Join(append(ts, f.lean(rt)), " → ")
+	lt := strings.Join(append(ts, strings.Join(rts, " × ")), " → ")
 	if p, ok := f.params[name]; ok && p.ltype != lt {
 		f.fail(x, "oracle %s is used at two different types (%s, %s)", name, p.ltype, lt)
 	}
